@@ -285,4 +285,55 @@ def q_c15_filter_text(bodies):
                 check_message=(problems[0][0] if problems else "filters survive their textual form"))
 
 
-QUERIES_C15TEXT = [q_c15_filter_text]
+def q_c09_filter_from_str_total(bodies):
+    """`FilterKind::from_str` on ANY text (one symbolic SMT string): every path ends in Ok or Err.  The body has no assertion, index
+    or slice terminator of its own (tracked: a MIR `assert` would be an obligation), and every callee on the way is one of the
+    total functions modelled here (split_once, str equality, to_owned, Bytes::from, hex::decode, the anyhow constructors); a
+    callee outside that list makes the query inconclusive instead of being assumed total."""
+    name = "c09_filter_from_str_total"
+    fr = _find(bodies, r"^store::<impl at [^>]*>::from_str$", r"^_1: &str -> Result<FilterKind")
+    if len(fr) != 1:
+        return dict(name=name, property="C09", verdict="inconclusive", detail="from_str of FilterKind not found uniquely (%d)" % len(fr), functions=[])
+    smt, ex, unknown = _engine(bodies)
+    smt.decls.append("(declare-const TXT String)")
+    problems, nq, ncases, kinds = [], 0, 0, set()
+    try:
+        paths = ex.run(fr[0], ["(S TXT)"], feasibility=False)
+    except (Inconclusive, ValueError, AssertionError, KeyError, IndexError, RecursionError) as e:
+        return dict(name=name, property="C09", verdict="inconclusive", detail="%r" % (e,), functions=[fr[0].name])
+    for pc, ret, calls, env in paths:
+        nq += 1
+        v = solve(smt.script("(and true %s)" % " ".join(pc)))[0]
+        if v == "unsat":
+            continue
+        if v != "sat":
+            problems.append(("feasibility of a path of from_str", "inconclusive", "%s" % [p[:60] for p in pc][:4]))
+            continue
+        ncases += 1
+        if ret == "PANIC" or env.get("__panic"):
+            problems.append(("parsing a filter never panics, whatever the text", "sat", "path=%s %s" % ([p[:60] for p in pc][:4], env.get("__panic"))))
+            continue
+        for cond, msg_ in env.get("__asserts", ()):
+            nq += 1
+            v2 = solve(smt.script("(and %s (not %s))" % (" ".join(pc) or "true", cond)))[0]
+            if v2 != "unsat":
+                problems.append(("parsing a filter never panics, whatever the text", v2, "assertion %s" % msg_))
+        if ret.startswith("(C_Ok (CE_FilterKind_"):
+            kinds.add(ret.split(" ")[1])
+        elif not ret.startswith("(C_Err"):
+            problems.append(("parsing a filter answers a filter or an error", "sat", "ret=%s" % ret[:60]))
+    total = r"::(trim|trim_start|trim_end|trim_ascii|trim_ascii_start|trim_ascii_end|to_lowercase|to_uppercase|to_ascii_lowercase|to_ascii_uppercase)$"
+    notknown = sorted(set(u for u in unknown if not re.search(total, u)))
+    if notknown:
+        problems.append(("every function the parser calls on the text is known to be total", "inconclusive", "%s" % notknown))
+    if len(kinds) < 2:
+        problems.append(("both kinds of filter can be parsed", "inconclusive", "%s" % sorted(kinds)))
+    verdict = "violated" if any(p[1] == "sat" for p in problems) else ("inconclusive" if problems else "holds")
+    return dict(name=name, property="C09", verdict=verdict, detail="feasible paths=%d; problems: %s" % (ncases, problems[:3] or "none"),
+                functions=[fr[0].name, "str::split_once, str equality, to_owned, Bytes::from, hex::decode (answers Ok or Err), anyhow constructors: total"],
+                queries=nq, cases=ncases, witness="c15text",
+                check_message=(problems[0][0] if problems else "parsing a filter is total"))
+
+
+QUERIES_C15TEXT = [q_c15_filter_text, q_c09_filter_from_str_total]
+QUERIES_C09TEXT = [q_c15_filter_text, q_c09_filter_from_str_total]
